@@ -247,6 +247,26 @@ theorem ex_inv (c : Cfg) (hn : NoRep c) (hd : c.dry = false) (s : State) (hr : R
       all_goals first | exact ih |
         (simp [ExInv, aePc_eq_noRep hn] at * <;> (try split) <;> simp_all [aePc_eq_noRep hn])
 
+/-- the ghost flag `ranLast` is only set by `execStart`, which also sets the worker's `executed` flag
+    `ran`; `visitLaunch` resets `ran` only for a node in status `none`, where `ranLast` is off -/
+theorem ranLast_ran (c : Cfg) (hn : NoRep c) (hd : c.dry = false) (s : State) (hr : Reach c s) (j : Nat) :
+    (s.nd j).ranLast = true → (s.nd j).ran = true := by
+  induction hr with
+  | init => simp [init]
+  | step a hr hs ih =>
+    have hL := launching_none c hn _ hr j
+    have hE := ex_inv c hn hd _ hr j
+    cases a with
+    | visitDecide i =>
+      rcases step_visitDecide hs with ⟨hsc, -, rfl | ⟨hst, l, hl, -, rfl⟩ | ⟨hst, -, -, -, rfl⟩⟩
+      · exact ih
+      · simp at *; split <;> simp_all
+      · exact ih
+    | _ =>
+      step_cases hs
+      all_goals first | exact ih |
+        (simp [ExInv] at * <;> (try split) <;> simp_all)
+
 /-- bookkeeping of attempts -/
 theorem execs_eq (c : Cfg) (hn : NoRep c) (hd : c.dry = false) (s : State) (hr : Reach c s) (i : Nat) :
     (s.nd i).execs = (s.nd i).retry + (if (s.nd i).ranLast then 1 else 0) :=
@@ -352,6 +372,7 @@ theorem fin_inv (c : Cfg) (hn : NoRep c) (hdry : c.dry = false) (hf : c.tdFaults
     have hA := active_running c hn _ hr hc0 j
     have hE := ex_inv c hn hdry _ hr j
     have hR := retry_le_limit c _ hr j
+    have hN := ranLast_ran c hn hdry _ hr j
     cases a with
     | visitDecide i =>
       rcases step_visitDecide hs with ⟨hsc, -, rfl | ⟨hst, l, hl, hnl, rfl⟩ | ⟨hst, -, -, -, rfl⟩⟩
